@@ -382,7 +382,22 @@ class World:
             parts.append(b"".join(seg[2] for seg in row).decode())
         return self._lex("".join(parts))
 
-    def redraw(self, lay: dict, *, bad: bool = False) -> str:
+    def winch(self) -> None:
+        """The terminal was resized: urwid's SIGWINCH handler (sets _resized, drops the line cache)."""
+        exc = self._call(self.screen._sigwinch_handler, 28, None)
+        if not exc and not getattr(self.screen, "_resized", False):
+            raise MachineryError("seam: urwid's _sigwinch_handler did not set _resized")
+        self._event("winch", exc=exc)
+
+    def handled(self) -> None:
+        """The resize is handled (what urwid's input parsing does when it reports 'window resize');
+        the size in cells is unchanged."""
+        exc = self._call(self.screen.parse_input, None, None, [], False)
+        if getattr(self.screen, "_resized", False):
+            self.screen._resized = False
+        self._event("handled", exc=exc)
+
+    def redraw(self, lay: dict, *, bad: bool = False, lost: bool = False) -> str:
         size = (self.cols, self.rows)
         tree = self.build(lay, *size)
         canvas = tree.render(size, focus=True)
@@ -390,10 +405,10 @@ class World:
         maxres = (self.cols, self.rows + 1) if bad else size
         exc = self._call(self.screen.draw_screen, maxres, canvas)
         toks = self._take()
-        full = self._paint_full(canvas) if (self.full_paint and not bad and not exc) else []
+        full = self._paint_full(canvas) if (self.full_paint and not bad and not lost and not exc) else []
         self.last_canvas = canvas
         del canvas
-        self._event("bad" if bad else "redraw", lay=lay, exc=exc, toks=toks, full=full)
+        self._event("bad" if bad else "lost" if lost else "redraw", lay=lay, exc=exc, toks=toks, full=full)
         self.invalid.clear()
         return exc
 
